@@ -553,6 +553,10 @@ def evo_bases() -> List[Case]:
     e = _e("Mode", 3, [0, 2, 5])
     m4 = Message("M", [Field(U(1), "h", 1), Field(TArray(TRef(e), 2, ext=True), "modes", 2), Field(TArray(I(11), 3, ext=True), "vals", 3), Field(TArray(TBase("byte"), 2, ext=True), "raw", 4)])
     bases.append(case_of("evo_tail", Proto("evo_tail", [e, m4]), ("ext",), only=["M"]))
+    # fields DECLARED out of number order in extensible messages (the wire follows the numbers, also for appended fields)
+    pin = Message("Pin", [Field(U(5), "fine", 4), Field(I(9), "lat", 2), Field(U(3), "h", 1)], ext=True)
+    m7 = Message("M", [Field(I(12), "lon", 3), Field(TRef(pin), "pin", 2), Field(U(6), "t", 7), Field(U(2), "a", 1)], ext=True)
+    bases.append(case_of("evo_perm", Proto("evo_perm", [pin, m7]), ("ext", "perm"), only=["M"]))
     # every element kind in a grown array, each followed by a field that must still be found: bool (1 bit in 1 byte),
     # byte, a sub-byte uint, an alias of an int, an alias of bool
     flag = Alias("Flag", TBase("bool"))
@@ -928,7 +932,7 @@ def rw_bases() -> List[Case]:
     kind = _e("Kind", 3, [0, 1, 5])
     mode = _e("Mode", 5, [0, 17, 30])
     other = Message("Other", [Field(TRef(kind), "k", 1)])
-    sub = Message("Sub", [Field(TBase("int", 6), "v", 1)])
+    sub = Message("Sub", [Field(TBase("int", 6), "v", 1), Field(TBase("byte"), "tag", 2), Field(TBase("bool"), "on", 3), Field(TBase("byte"), "tag2", 4)])
     item = Message("Item", [Field(TBase("uint", 11), "w", 1), Field(TBase("bool"), "b", 2)])
     packet = Message("Packet", [Field(TRef(mode), "mode", 1), Field(TArray(TRef(mode), 2), "modes", 2), Field(TRef(item), "item", 3), Field(TBase("uint", 4), "t", 4)], nested=[mode, item])
     bases.append(case_of("shadowable", Proto("shadowable", [kind, sub, other, packet]), ("shadow",)))
